@@ -31,6 +31,7 @@ type lspCtl struct {
 	fail   map[string]bool // op name -> fail (one shot per Update; cleared by reset)
 	gate   func(tid int, op string) // nil = free running
 	xkind  int                      // which damage fault X does
+	readErr error                   // what a failing read-handle GetLatest returns (nil: a plain error)
 }
 
 func (c *lspCtl) record(op string) {
@@ -140,6 +141,9 @@ func (r *wrapRead) GetLatest() ([]byte, error) {
 	}
 	r.w.ctl.record("g")
 	if r.w.ctl.failing("g") {
+		if r.w.ctl.readErr != nil {
+			return nil, r.w.ctl.readErr // a storage layer that reports its failure with a gRPC status code
+		}
 		return nil, errInjected
 	}
 	b, err := r.inner.GetLatest()
